@@ -502,6 +502,80 @@ func TestSampled(t *testing.T) {
 	})
 }
 
+// handlersCase: the consistency half of the statement (Require closed, Remove free) must hold after ANY
+// completed transition, also when handler verdicts cancel it or accept an auto mutation only partially.
+func handlersCase(st *ev.Stats, c rec.Case) error {
+	var ferr error
+	partial := false
+	run, err := rec.Exec(c, rec.ExecOpts{PerStep: func(r *rec.Run, out *rec.StepOut) error {
+		for _, tx := range out.Txs {
+			if !tx.Completed || tx.IsCheck {
+				continue
+			}
+			after := model.ActiveOf(r.Names, tx.TimeAfter)
+			if err := model.RequireClosed(r.Schema, after); err != nil {
+				ferr = fmt.Errorf("after %s: tx %s(%v) auto=%v accepted=%v from %v: P1 %v (active %v)", out.Step, tx.Type, tx.Called, tx.IsAuto, tx.Accepted, tx.Before, err, after.List())
+				return ferr
+			}
+			if err := model.RemoveFree(r.Schema, after); err != nil {
+				before := model.ActiveOf(r.Names, tx.TimeBefore)
+				if model.RemoveFree(r.Schema, before) != nil || (kfImpliedRemover(r.Schema, before, after, model.NewSet(tx.Called), tx.IsAuto) && kf.IsKnown("C02-implied-remover")) {
+					// the known implied-remover shape (or a set that was already inconsistent because of it)
+					if st != nil {
+						st.Known("C02-implied-remover", err.Error())
+					}
+					continue
+				}
+				ferr = fmt.Errorf("after %s: tx %s(%v) auto=%v accepted=%v from %v: P2 %v (active %v)", out.Step, tx.Type, tx.Called, tx.IsAuto, tx.Accepted, tx.Before, err, after.List())
+				return ferr
+			}
+			if tx.IsAuto && tx.Accepted && len(tx.Called) > 0 {
+				for _, s := range tx.Called {
+					if !after[s] {
+						partial = true
+					}
+				}
+			}
+		}
+		return nil
+	}})
+	if run != nil {
+		defer run.Close()
+	}
+	if ferr != nil {
+		return ferr
+	}
+	if err != nil {
+		return err
+	}
+	if st != nil {
+		st.Eval(1)
+		st.Class("with-handlers")
+		if partial {
+			st.Class("with-handlers: partially accepted auto mutation")
+			st.NonTrivial("h|" + c.Key())
+			st.Sample("with-handlers", 2, c)
+		}
+	}
+	return nil
+}
+
+func TestWithHandlers(t *testing.T) {
+	st := ev.G()
+	st.SetRapid(6000, 150000, 7)
+	rapid.Check(t, func(t *rapid.T) {
+		sc := gen.GenSchema(t, gen.SchemaOpts{MinStates: 2, MaxStates: 6, NoAfter: true, MinAuto: rapid.IntRange(0, 2).Draw(t, "minAuto")})
+		c := rec.Case{Schema: sc}
+		c.Table = gen.GenTable(t, sc, gen.TableOpts{Veto: true, MaxBindings: 2})
+		c.History = gen.GenHistory(t, sc, gen.HistoryOpts{Ops: []string{"add", "remove", "set", "toggle"}, MinLen: 1, MaxLen: 8})
+		st.Journal(map[string]any{"kind": "handlers", "case": c})
+		if err := handlersCase(st, c); err != nil {
+			ev.G().PinLast()
+			t.Fatalf("C02 violated: %v", err)
+		}
+	})
+}
+
 func TestReplay(t *testing.T) {
 	p := os.Getenv("VERIF_REPLAY")
 	if p == "" {
@@ -525,6 +599,15 @@ func TestReplay(t *testing.T) {
 			t.Fatal(err)
 		}
 		if err := sampledCase(nil, c); err != nil {
+			ev.G().PinLast()
+			t.Fatalf("C02 violated: %v", err)
+		}
+	case "handlers":
+		var c rec.Case
+		if err := json.Unmarshal(w.Case, &c); err != nil {
+			t.Fatal(err)
+		}
+		if err := handlersCase(nil, c); err != nil {
 			ev.G().PinLast()
 			t.Fatalf("C02 violated: %v", err)
 		}
